@@ -48,7 +48,7 @@ const wait = 5 * time.Second
 var concKeys = [][]string{
 	{"", "aa", "ab", "ba", "bb"},             // equal lengths: the model's size accounting is exact
 	{"", "a", "ab", "b", "b\x00"},            // a key that is a prefix of another, binary byte
-	{"", "\x00", "\x00\x00", "\x01", "\xff"}, // binary keys
+	{"", "\xfe", "\xfe\xff", "\xff", "\xff\xff"}, // binary, non-UTF-8 keys (table ranges in the JSON document)
 }
 var concVals = [][]string{
 	{"", "v1", "v2", "v3"},
